@@ -165,6 +165,7 @@ class World:
     def __init__(self, spec: dict):
         self.spec = copy.deepcopy(spec)
         self.alias = {}
+        self.passed = []
         self.name = spec.get("name", "w")
         self.device = make_device(spec)
         self.nq = spec.get("qubits", 2)
@@ -218,6 +219,7 @@ class World:
         from pulser import Sequence
 
         seq = Sequence(self.register, self.device)
+        self.passed = []  # list objects handed to the sequence since it was created
         if apply_prefix:
             for op in self.prefix:
                 apply(seq, op, self)
@@ -255,8 +257,13 @@ class World:
         return seq._schedule[name].channel_obj
 
 
-def _tl(x):
-    return list(x) if isinstance(x, (list, tuple)) else x
+def _tl(x, world=None):
+    """A list argument as the caller would own it; remembered in world.passed so that a harness can edit it afterwards."""
+    if isinstance(x, (list, tuple)):
+        x = list(x)
+        if world is not None:
+            world.passed.append(x)
+    return x
 
 
 def apply(seq, op, world: World):
@@ -264,16 +271,16 @@ def apply(seq, op, world: World):
     op = world.xlate(op)
     k = op[0]
     if k == "declare":
-        it = _tl(op[3]) if len(op) > 3 else None
+        it = _tl(op[3], world) if len(op) > 3 else None
         return seq.declare_channel(op[1], op[2], initial_target=it)
     if k == "add":
         return seq.add(make_pulse(op[1]), op[2], protocol=op[3] if len(op) > 3 else "min-delay")
     if k == "delay":
         return seq.delay(op[1], op[2], at_rest=op[3] if len(op) > 3 else False)
     if k == "target":
-        return seq.target(_tl(op[1]), op[2])
+        return seq.target(_tl(op[1], world), op[2])
     if k == "target_index":
-        return seq.target_index(_tl(op[1]), op[2])
+        return seq.target_index(_tl(op[1], world), op[2])
     if k == "align":
         if len(op) > 2 and op[2] is not None:
             return seq.align(*op[1], at_rest=op[2])
@@ -295,7 +302,7 @@ def apply(seq, op, world: World):
     if k == "add_dmm":
         return seq.add_dmm_detuning(make_wf(op[1]), op[2], protocol=op[3] if len(op) > 3 else "no-delay")
     if k == "slm":
-        return seq.config_slm_mask(_tl(op[1]), *(op[2:3]))
+        return seq.config_slm_mask(_tl(op[1], world), *(op[2:3]))
     if k == "measure":
         return seq.measure(op[1])
     if k == "magfield":
